@@ -58,6 +58,25 @@ def run(tier, replay):
                 res.violation("long-message hash run did not complete (rc=%d, %d of 15 events)" % (r.returncode, len(evs)), {"cmd": [exe, "big"]})
             for e in evs:
                 e["id"] = len(events); events.append(e)
+    # read-level binding of the streaming model: every read_buffer64 call of the real filebuffer64 as one
+    # HashBuffer action (HashBufferTrace.tla)
+    nb_runs = nb_reads = 0
+    if not replay:
+        bt = []
+        for h in (1, 2, 3):
+            p = os.path.join(d, "buf%d.ndjson" % h)
+            r = wv.run_harness(exes[h], ["buftrace", maxlen, 1], p)
+            ev = wv.read_ndjson(p)
+            if r.returncode != 0:
+                res.violation("hash-buffer trace driver aborted (refill %d units)" % h, {"cmd": [exes[h], "buftrace"]})
+            for e in ev:
+                e["id"] = len(bt); bt.append(e)
+        bbad, bst = wv.validate_trace("HashBufferTrace", bt, name=PID + "/tlcbuf", shards=6)
+        nb_runs, nb_reads = len(bt), sum(len(e["reads"]) for e in bt)
+        for e, why in bbad:
+            res.violation("filebuffer64 (refill %d units, %d-byte message, prefix %d): %s" % (e["hbuf"], e["n"], e["pre"], why[:200]), {"events": [e]})
+        res.cov["hash_buffer_runs_validated_as_behaviours"] = nb_runs
+        res.cov["hash_buffer_reads"] = nb_reads
     bad, st = wv.validate_trace("HashTrace", events, name=PID + "/tlc")
     keys = set()
     for e in events:
